@@ -11,7 +11,7 @@
 From Coq Require Import List NArith.
 From Common Require Import Outcome.
 From Grandpa Require Import Tree Votes RoundSpec.
-From C21 Require Import Model Spec Proofs Proofs2 Proofs3.
+From C21 Require Import Model Spec Proofs Proofs2 Proofs3 Proofs4.
 Import ListNotations.
 
 (* ---- the vote filter -------------------------------------------------------------------- *)
@@ -170,6 +170,22 @@ Theorem C21_finalises_only_refuted :
   fst (attempt_to_finalize e st) = Ok (Some 5) /\ finalise_ok e st 5 = false.
 Proof. vm_compute. repeat split; reflexivity. Qed.
 Print Assumptions C21_finalises_only_refuted.
+
+(* ---- the node's own prevote (determinePreVote) -------------------------------------------- *)
+(* The property text does not constrain the prevote.  What the code guarantees (without a pending
+   authority change, best block descending from the finalised head as dot/state ensures): the
+   prevote is a known block carrying its own number that descends from the node's finalised head
+   -- the primary's stored vote when its number is not below the head, else the best block.
+   Nothing ties it to the previous round's estimate: that is C22's finding
+   round-advance-ignores-estimate (C22/ModelImpl.v follows_finalised is this fact). *)
+Theorem C21_prevote_descends_from_head : forall e st primary g,
+  e_next_change e = None -> stored_ok e st = true ->
+  known e (e_best e) = true -> anc (e_tree e) (s_head st) (e_best e) ->
+  determine_prevote e st primary = Ok g ->
+  known e (gv_block g) = true /\ gv_num g = number e (gv_block g) /\
+  anc (e_tree e) (s_head st) (gv_block g).
+Proof. exact prevote_descends_from_head. Qed.
+Print Assumptions C21_prevote_descends_from_head.
 
 (* ---- non-vacuity ------------------------------------------------------------------------- *)
 (* 4 voters; prevotes 3, 3, 4 on the chain 0-1-2-3-4: ghost 3; a change pending at height 2 caps the
